@@ -22,7 +22,7 @@ func checkC08(c *Ctx) {
 	c.Rule("C08.R2", "in-order reassembly: in processIntoBuffer every buffer.Write(frag.value) is on the equal edge of r.windowStart == frag.priority and is followed, in that iteration, by exactly one windowStart++ and one ackNo++; a fragment ahead of the window is pushed back; receive pushes only frames that are in bounds and carry data or FIN (E1)")
 	c.Rule("C08.R3", "FIN is numbered after all data and ends writing: sendFin takes s.frameNo and then increments it under s.m and sets finSent; write appends nothing once finSent is set; the receiver marks end-of-stream only for the in-order FIN fragment (E1)")
 	c.Rule("C08.R4", "the retransmission timer stays armed: every path of recvAck that stops the ticker and returns a nil error re-arms it (resetRetransmitTicker) after the stop (E1 pairing)")
-	c.Decides("who may discard unacknowledged data, the in-order condition of delivery, FIN ordering, stop/re-arm pairing of the retransmission timer")
+	c.Decides("who may discard unacknowledged data, the in-order condition of delivery, FIN ordering (incl. that a FIN acts only once consumed in order), stop/re-arm pairing of the retransmission timer, that every REQ is answered, ownership of the receive buffer and of frame payloads")
 	c.NotDecided("liveness under outage and recovery (incl. how many frames a retransmission timeout resends: seeded change C08-5 is not reported), duplicate-ack limits, RTO arithmetic, sequence-number unwrapping (value- and schedule-dependent)")
 
 	fFrames := P.Field("tubes", "sender", "frames")
@@ -532,7 +532,7 @@ func checkC09(c *Ctx) {
 	c.Rule("C09.R5", "the two ends pick from disjoint id sets: pickTubeID starts at int(m.idParity), steps by 2, stays below 256 before narrowing and returns an id only on the not-present edge of the map of the requested reliability; newMuxer assigns parity 0 iff isServer; Client / Server pass false / true (induction shape + E1)")
 	c.Rule("C09.R6", "payload ownership: a frame payload that outlives the call that decoded it is a private copy, never a slice of the muxer's reused read buffer: the decoder copies, or every retaining site (reassembly heap, unreliable queue) does (def-use)")
 	c.Rule("C09.R7", "id quarantine covers the peer's last-ack wait: the multiple of the RTT estimate for which reapTube keeps a closed reliable tube's id reserved is not smaller than the multiple after which enterLastAckState gives up waiting for the final ACK (otherwise the id is handed to a new tube while the peer still maps it to the old one) (sibling constants)")
-	c.Decides("keying of the tube tables, atomicity of id allocation, single offer, framing of unreliable messages, parity split, payload ownership, the quarantine / last-ack multipliers")
+	c.Decides("keying of the tube tables, atomicity of id allocation, single offer (on every returning path once registered), framing of unreliable messages (no retained fragments), parity split, payload ownership, the quarantine / last-ack multipliers")
 	c.NotDecided("late frames of a closed tube reaching a successor with the same id (history-dependent); interleavings; the two ends' RTT estimates differing")
 	c09R7(c)
 	c09R8(c)
